@@ -42,5 +42,22 @@ theorem tie_proj_polyligne_pairs [OfScientific α] (inf : α) (sqrt : α → α)
       C20.lift ((Proj.projPolyligne sqrt (1e-16 : α) pts x y).map C20.idx) :=
   C20.tie_proj_polyligne_pairs inf sqrt pts x y hinf
 
+/-- **exact** (model correction): the translation of the current `proj_polyligne` is the SENTINEL-FAITHFUL model
+`Proj.projPolyligneXYS` (the sentinel `1e400` = the parameter `inf`, tested `dist < inf` as in the code) with Python numbers
+and `eps = 1e-16`, on ALL arguments, exceptions included (`IndexError`, `ZeroDivisionError`, `UnboundLocalError` — also
+when every distance is `inf`/NaN); NO sentinel hypothesis. `Lemmas/ProjSentinel.lean` `Proj.projPolyligneXYS_eq_false`
+gives `projPolyligneXYS = projPolyligneXY` under `hinf`. -/
+theorem tie_proj_polyligne_exact [OfScientific α] (inf : α) (sqrt : α → α) (Xp Yp : List α) (x y : α) :
+    Gen.Geometry.proj_polyligne inf sqrt Xp Yp x y =
+      C20.liftX ((Proj.projPolyligneXYS false inf sqrt (1e-16 : α) Xp Yp x y).map C20.idx) :=
+  C20.tie_proj_polyligne_exact inf sqrt Xp Yp x y
+
+/-- **exact**, on the abscissas / ordinates of a vertex list (an edge geometry, a track): the sentinel-faithful kernel
+model `Proj.projPolyligneS` (`= projPolyligne` under `hinf`: `Proj.projPolyligneS_eq`); NO sentinel hypothesis -/
+theorem tie_proj_polyligne_pairs_exact [OfScientific α] (inf : α) (sqrt : α → α) (pts : List (α × α)) (x y : α) :
+    Gen.Geometry.proj_polyligne inf sqrt (pts.map Prod.fst) (pts.map Prod.snd) x y =
+      C20.lift ((Proj.projPolyligneS inf sqrt (1e-16 : α) pts x y).map C20.idx) :=
+  C20.tie_proj_polyligne_pairs_exact inf sqrt pts x y
+
 end
 end TV.Tie.C10
